@@ -33,7 +33,7 @@ func (c *Console) log(p func(string)) func(goja.FunctionCall) goja.Value {
 			panic(c.runtime.NewTypeError("util.format is not a function"))
 		}
 
-		return nil
+		return goja.Undefined()
 	}
 }
 
